@@ -248,7 +248,10 @@ func (s *AccumulatingGroup) Groups(sort sorting.NameSorter) []GroupKey {
 		sortKey := func(x GroupKey) string {
 			ctx.groupKey = string(x)
 			ctx.rowLookup = func(row string) string {
-				return s.data[x][s.colIdxLookup[row]]
+				if idx, ok := s.colIdxLookup[row]; ok {
+					return s.data[x][idx]
+				}
+				return "" // unknown name reads as empty, as in the accumulator expressions
 			}
 			return s.sortExpr.BuildKey(&ctx)
 		}
